@@ -266,7 +266,7 @@ func TestShapes(t *testing.T) {
 
 	// addr:port matrix.
 	addrs := []string{"1.2.3.4", "0.0.0.0", "255.255.255.255", "::", "::1", "1::", "1:2:3:4:5:6:7:8", "::ffff:1.2.3.4", "fe80::1%eth0", "1:2:3:4:5:6:1.2.3.4", "1.2.3", "", ":", "[", "]", "[]", "::%", "1:2:3:4:5:6:7:8:9", "1:2:3:4:5:6:7::", "::2:3:4:5:6:7:8"}
-	ports := []string{"", "0", "00080", "65535", "65536", "99999999999999999999", "+1", "-1", "1_0", "８０", " 80", "80 ", "0x50", "1e3", "8\x000"}
+	ports := []string{"", "0", "00080", "000080", "0000000443", "065535", "0065536", "000000", "65535", "65536", "99999999999999999999", "+1", "-1", "1_0", "８０", " 80", "80 ", "0x50", "1e3", "8\x000"}
 	forms := []func(a, p string) string{
 		func(a, p string) string { return a + ":" + p },
 		func(a, p string) string { return "[" + a + "]:" + p },
@@ -283,6 +283,15 @@ func TestShapes(t *testing.T) {
 			for _, f := range forms {
 				ipCase(r, &loc, f(a, p))
 			}
+		}
+	}
+	// every port spelled with up to 8 digits over {0,3,5,6,9}: leading zeros, 65535/65536 boundary
+	pd := []string{"0", "3", "5", "6", "9"}
+	for l := 1; l <= 8; l++ {
+		for i := 0; i < gen.AlphaCount(len(pd), l); i++ {
+			p := string(gen.AlphaAt(pd, l, i, nil))
+			ipCase(r, &loc, "1.2.3.4:"+p)
+			ipCase(r, &loc, "[::1]:"+p)
 		}
 	}
 	loc.flush(r, "addrport")
@@ -302,9 +311,9 @@ func canonical() []string {
 	for _, a := range addrs {
 		out = append(out, a)
 		if strings.Contains(a, ":") {
-			out = append(out, "["+a+"]:80", "["+a+"]:0", "["+a+"]:65535")
+			out = append(out, "["+a+"]:80", "["+a+"]:0", "["+a+"]:65535", "["+a+"]:0000065535")
 		} else {
-			out = append(out, a+":80", a+":65535")
+			out = append(out, a+":80", a+":65535", a+":000080")
 		}
 	}
 	return out
